@@ -116,6 +116,7 @@ class Scheduler:
         self.stalls = 0
         self.stall_locks = {}  # lock label -> (probability, durations): targeted stall right before acquiring that lock
         self.stall_after_locks = {}  # lock label -> (probability, durations): targeted stall right after releasing it
+        self.line_hot = {}  # function name -> (probability per line, durations): stall inside these functions (line events)
 
     # ------------------------------------------------------------------ bookkeeping
     def reseed(self, *key):
@@ -649,6 +650,14 @@ def _on_line(code, line):
         return None
     if _LINE_TRACE is not None:
         _LINE_TRACE.write(f'{s.steps} {fn.rsplit("/", 1)[-1]}:{code.co_name}:{line}\n')
+    if s.line_hot and code.co_name in s.line_hot:
+        # fault placement at a code site: inside the named functions a thread is descheduled with the given probability
+        # per executed line (reaches windows that no lock marks, e.g. an unsynchronised iteration)
+        p, durs = s.line_hot[code.co_name]
+        if s.rng.random() < p:
+            s.line_yields += 1
+            s._stall(s.rng.choice(durs), f'{code.co_name}:{line}')
+            return None
     if s.line_p > 0 and s.rng.random() < s.line_p:
         s.line_yields += 1
         s.yield_point('line', f'{code.co_name}:{line}')
